@@ -1,6 +1,6 @@
 // C41 Unauthenticated clients cannot access data or gain access.
 //
-// Every sequence (to depth 2 quick / 3 thorough) over an alphabet of ~80
+// Every sequence (to depth 2 quick / 3 thorough) over an alphabet of 79
 // protocol requests is sent to the REAL server connection code
 // (dbms.newServerConn, the command dispatch of dbmsserver.go, DbmsUnauth,
 // auth.go) over an in-memory pipe with the real hello + TLS upgrade. The
